@@ -93,8 +93,18 @@ pub struct Cfg {
     pub close_at_ms: u64,
     /// rebind the client's address at these virtual times (ms); empty = never
     pub rebind_at_ms: Vec<u64>,
-    /// 0: a rebind changes the port only; 1: changes the IP address; 2: alternates
+    /// 0: a rebind changes the port only; 1: changes the IP address; 2: alternates port / IP (always a fresh address);
+    /// 3: the client toggles between its first address A and ONE other address B (port change): A, B, A, B, ..
+    /// (the peer sees migrations back to a path it already knows); 4: like 3 with an IP change
     pub rebind_ip: u64,
+    /// a SECOND client (its own endpoint and address, trace label `d`) connects to the same server at this virtual
+    /// time (0 = no second client)
+    pub conn2_at_ms: u64,
+    /// the original Destination Connection ID the second client puts on its first Initial (hex, 8 bytes;
+    /// empty = the library's random choice)
+    pub conn2_dcid: Vec<u8>,
+    /// bytes the second client writes on its one bidirectional stream
+    pub conn2_size: u64,
     /// custom deterministic connection-id provider (used when any of the three is set):
     /// lifetime of every generated id (0 = none), id length (0 = 16), rotation of the handshake id (-1 = default)
     pub cid_lifetime_ms: u64,
@@ -182,6 +192,9 @@ impl Default for Cfg {
             close_at_ms: 0,
             rebind_at_ms: vec![],
             rebind_ip: 0,
+            conn2_at_ms: 0,
+            conn2_dcid: vec![],
+            conn2_size: 2000,
             cid_lifetime_ms: 0,
             cid_len: 0,
             rotate_handshake_cid: -1,
@@ -300,6 +313,14 @@ impl Cfg {
                     c.rebind_at_ms.sort();
                 }
                 "rebind_ip" => c.rebind_ip = n()?,
+                "conn2_at_ms" => c.conn2_at_ms = n()?,
+                "conn2_size" => c.conn2_size = n()?,
+                "conn2_dcid" => {
+                    if v.len() % 2 != 0 || !v.bytes().all(|b| b.is_ascii_hexdigit()) {
+                        return Err(format!("bad hex for {k}: {v}"));
+                    }
+                    c.conn2_dcid = (0..v.len() / 2).map(|i| u8::from_str_radix(&v[2 * i..2 * i + 2], 16).unwrap()).collect();
+                }
                 "cid_lifetime_ms" => c.cid_lifetime_ms = n()?,
                 "cid_len" => c.cid_len = n()?,
                 "rotate_handshake_cid" => c.rotate_handshake_cid = n()? as i64,
